@@ -15,7 +15,7 @@ EXPLANATION = (
     "adam(learning_rate)) in that order; train/train_batch differentiate the loss w.r.t. the policy (parameter 0), bind "
     "every coefficient argument to the like-named attribute, apply optimizer.update then apply_updates, and return the "
     "updated policy and optimiser state. evaluate_action is fed (states, observations, actions, action_mask=action_masks) "
-    "of one buffer."
+    "of one buffer. C08.8 composed with the collector: stored actions / log_probs / values are items of one action_and_value call."
 )
 ASSUMPTIONS = [
     "optax.chain / clip_by_global_norm / adam and eqx.filter_value_and_grad behave as documented (trusted)",
@@ -242,5 +242,20 @@ def check(s):
     check_train(s, "REINFORCE", "train", "reinforce_loss", "reinforce_loss_grad")
     for cls in ("PPO", "A2C", "REINFORCE"):
         check_ctor(s, cls)
-    for r, n in (("C08.1", 8), ("C08.3", 4), ("C08.4", 12), ("C08.5", 20), ("C08.6", 30), ("C08.7", 40)):
+    # ---------------------------------------------------------------- C08.8 producer ∘ loss
+    # "on data collected by the current policy every ratio is 1 and the approximate KL is 0": the loss re-scores batch.actions and
+    # compares with batch.log_probs, so the collector must store the very sample and its own log-probability (one policy call).
+    from .stepref import on_policy_rows
+    for o in on_policy_rows(s):
+        s.eq("C08.8", o["con"], o["nz"], o["row"].get("actions", NONE), o["ref"]["action"],
+             "the stored action the loss re-scores is the policy's sample itself (not its clipped or otherwise transformed image)", o["loc"], key="ratio-action-source",
+             necessary_for="on data collected by the current policy every ratio is 1 and the approximate KL is 0")
+        s.eq("C08.8", o["con"], o["nz"], o["row"].get("log_probs", NONE), o["ref"]["logp"],
+             "the stored log-probability is the log-prob item of the same action_and_value call that produced the stored action", o["loc"], key="ratio-logprob-source",
+             necessary_for="on data collected by the current policy every ratio is 1 and the approximate KL is 0")
+        s.ob("C08.8", o["con"], o["policy_calls"] == 1, "one action_and_value call (one key) feeds the stored action, log-prob and value", o["loc"], key="ratio-one-policy-call",
+             detail=f"{o['policy_calls']} calls", necessary_for="the stored log-probability belongs to the stored sample, not to a second draw")
+        s.eq("C08.8", o["con"], o["nz"], o["row"].get("values", NONE), o["ref"]["value"],
+             "the stored value (centre of the PPO2 value clip) is the value item of that same call", o["loc"], key="old-value-source")
+    for r, n in (("C08.1", 8), ("C08.3", 4), ("C08.4", 12), ("C08.5", 20), ("C08.6", 30), ("C08.7", 40), ("C08.8", 8)):
         s.floor(r, n)
